@@ -3,6 +3,7 @@
 //!   pkg-encode / pkg-laws / pkg-child / pkg-bodies           I->S event recording for spec/codec/CodecLaws.tla
 mod pkg;
 mod replay;
+mod rewrite;
 mod sha;
 
 fn main() {
@@ -13,7 +14,7 @@ fn main() {
         Some("pkg-encode") => pkg::encode_cmd(rest),
         Some("pkg-laws") => pkg::laws_cmd(rest),
         Some("pkg-child") => pkg::child_cmd(rest),
-        Some("pkg-bodies") => pkg::bodies_cmd(rest),
+        Some("pkg-bodies") => rewrite::bodies_cmd(rest),
         Some("sha256") => { println!("{}", sha::sha256(&std::fs::read(&rest[0]).expect("file"))); 0 }
         _ => { eprintln!("usage: vbc replay|opcodes|pkg-encode|pkg-laws|pkg-child|pkg-bodies ..."); 2 }
     };
